@@ -23,6 +23,8 @@ type C03Case struct {
 	// object with numbered keys) of Records copies of it - thousands of small containers at one level
 	Records         int  `json:"records,omitempty"`
 	RecordsInObject bool `json:"recordsinobject,omitempty"`
+	// Poison > 0: both parsers first get the document cut after Poison mod len bytes (see C01Case)
+	Poison int `json:"poison,omitempty"`
 }
 
 var c03Records = []string{`{"a":1,"b":"s"}`, `{"k":[1,"x"]}`, `["a",{"z":"y"}]`, `{"a":{"b":"c"}}`, `[[],{},"s"]`, `{"n":null,"t":true,"s":""}`, `[1.5e3,"\u0041"]`, `{"":""}`}
@@ -364,7 +366,11 @@ func GenC03(t *rapid.T) *C03Case {
 		v = g.object(depth)
 	}
 	g.ws()
-	return &C03Case{Text: g.sb.String(), Expect: &v}
+	c := &C03Case{Text: g.sb.String(), Expect: &v}
+	if oneIn(t, 6, "poison") {
+		c.Poison = 1 + genRaw(t)
+	}
+	return c
 }
 
 // c03Features classifies a document from its text and token tree (works for
@@ -528,6 +534,10 @@ func CheckC03(c *C03Case, st *Stats) error {
 		st.Count("depth>=64")
 	}
 
+	if c.Poison > 0 {
+		poisonParser(text, c.Poison)
+		st.Count("failed_parse_first")
+	}
 	got, perr := parseRoot(want.K, text)
 	if perr != nil || got == nil {
 		return errf("valid JSON document rejected: %v\n text: %q\n reference decoder reads: %s", perr, clip(text, 400), want.Show())
